@@ -855,6 +855,13 @@ class SyncObj(object):
             if self.__selfCodeVersion < ver:
                 raise SyncObjExceptionWrongVer(ver)
             oldVer = self.__enabledCodeVersion
+            if ver < oldVer:
+                # setCodeVersion() can only compare with the version applied so far on the requesting
+                # node, so a request for a lower version may follow a higher one in the log. The
+                # enabled version never goes down: such an entry changes nothing - on every node
+                # alike, the enabled version at this position is a function of the log - and the
+                # requester gets the refusal as the result of the command.
+                return Exception('wrong version, enabled version is %d, requested version is %d' % (oldVer, ver))
             self.__enabledCodeVersion = ver
             callback = self.__conf.onCodeVersionChanged
             self.__onSetCodeVersion(ver)
